@@ -283,8 +283,15 @@ func (b *Broker) RegisterNode(id NodeID, node Node, opt ...Option) error {
 // referencing those nodes
 func (b *Broker) RemoveNode(ctx context.Context, id NodeID) error {
 	b.lock.Lock()
-	defer b.lock.Unlock()
-	return b.removeNode(ctx, id, false)
+	node, err := b.detachNode(id, false)
+	b.lock.Unlock()
+	if err != nil {
+		return err
+	}
+
+	// The node is closed without the lock held: closing is caller supplied
+	// code which may call back into the Broker (e.g. to flush events).
+	return closeNode(ctx, id, node)
 }
 
 // removeNode will remove a node from the broker, if it is not currently  in use.
@@ -293,33 +300,53 @@ func (b *Broker) RemoveNode(ctx context.Context, id NodeID) error {
 // The force option can be used to decrement the count for the node if it's still in use by pipelines
 // This function assumes that the caller holds a lock
 func (b *Broker) removeNode(ctx context.Context, id NodeID, force bool) error {
+	node, err := b.detachNode(id, force)
+	if err != nil {
+		return err
+	}
+	return closeNode(ctx, id, node)
+}
+
+// detachNode does the bookkeeping of removeNode without closing the node: it
+// unregisters the node, or with the force option decrements its count if it's
+// still in use by other pipelines. It returns the node when it was unregistered
+// (the caller then closes it, see closeNode) and nil otherwise.
+// This function assumes that the caller holds a lock
+func (b *Broker) detachNode(id NodeID, force bool) (Node, error) {
 	if id == "" {
-		return fmt.Errorf("unable to remove node, node ID cannot be empty: %w", ErrInvalidParameter)
+		return nil, fmt.Errorf("unable to remove node, node ID cannot be empty: %w", ErrInvalidParameter)
 	}
 
 	nodeUsage, ok := b.nodes[id]
 	if !ok {
-		return fmt.Errorf("%w: %q", ErrNodeNotFound, id)
+		return nil, fmt.Errorf("%w: %q", ErrNodeNotFound, id)
 	}
 
 	// if force is passed, then decrement the count for this node instead of failing
 	if nodeUsage.referenceCount > 0 && !force {
-		return fmt.Errorf("cannot remove node, as it is still in use by 1 or more pipelines: %q", id)
+		return nil, fmt.Errorf("cannot remove node, as it is still in use by 1 or more pipelines: %q", id)
 	}
 
-	var err error
 	switch nodeUsage.referenceCount {
 	case 0, 1:
-		nc := NewNodeController(nodeUsage.node)
-		if err = nc.Close(ctx); err != nil {
-			err = fmt.Errorf("unable to close node ID %q: %w", id, err)
-		}
 		delete(b.nodes, id)
+		return nodeUsage.node, nil
 	default:
 		nodeUsage.referenceCount--
+		return nil, nil
 	}
+}
 
-	return err
+// closeNode closes a node that has been unregistered (see detachNode).
+func closeNode(ctx context.Context, id NodeID, node Node) error {
+	if node == nil {
+		return nil
+	}
+	nc := NewNodeController(node)
+	if err := nc.Close(ctx); err != nil {
+		return fmt.Errorf("unable to close node ID %q: %w", id, err)
+	}
+	return nil
 }
 
 // PipelineID is a string that uniquely identifies a Pipeline within a given EventType.
@@ -450,31 +477,57 @@ func (b *Broker) RemovePipelineAndNodes(ctx context.Context, t EventType, id Pip
 		return false, errors.New("pipeline ID cannot be empty")
 	}
 
-	b.lock.Lock()
-	defer b.lock.Unlock()
-
-	g, ok := b.graphs[t]
-	if !ok {
-		return false, fmt.Errorf("no graph for EventType %s", t)
-	}
-
-	nodes, err := g.roots.Nodes(id)
+	detached, nodeErr, err := b.detachPipelineAndNodes(t, id)
 	if err != nil {
-		return false, fmt.Errorf("unable to retrieve all nodes referenced by pipeline ID %q: %w", id, err)
+		return false, err
 	}
 
-	g.roots.Delete(id)
-
-	var nodeErr error
-
-	for _, nodeID := range nodes {
-		err = b.removeNode(ctx, nodeID, true)
+	// The nodes are closed without the lock held: closing is caller supplied
+	// code which may call back into the Broker (e.g. to flush events).
+	for nodeID, node := range detached {
+		err = closeNode(ctx, nodeID, node)
 		if err != nil {
 			nodeErr = multierror.Append(nodeErr, err)
 		}
 	}
 
 	return true, nodeErr
+}
+
+// detachPipelineAndNodes removes the pipeline and unregisters those of its
+// nodes that no other pipeline references, all under the lock. It returns the
+// unregistered nodes, which still have to be closed, and any errors encountered
+// while unregistering them; err is only set for failed preconditions, in which
+// case nothing was removed.
+func (b *Broker) detachPipelineAndNodes(t EventType, id PipelineID) (detached map[NodeID]Node, nodeErr error, err error) {
+	b.lock.Lock()
+	defer b.lock.Unlock()
+
+	g, ok := b.graphs[t]
+	if !ok {
+		return nil, nil, fmt.Errorf("no graph for EventType %s", t)
+	}
+
+	nodes, err := g.roots.Nodes(id)
+	if err != nil {
+		return nil, nil, fmt.Errorf("unable to retrieve all nodes referenced by pipeline ID %q: %w", id, err)
+	}
+
+	g.roots.Delete(id)
+
+	detached = make(map[NodeID]Node, len(nodes))
+	for _, nodeID := range nodes {
+		node, err := b.detachNode(nodeID, true)
+		if err != nil {
+			nodeErr = multierror.Append(nodeErr, err)
+			continue
+		}
+		if node != nil {
+			detached[nodeID] = node
+		}
+	}
+
+	return detached, nodeErr, nil
 }
 
 // SetSuccessThreshold sets the success threshold per EventType.  For the
